@@ -439,7 +439,7 @@ def gen_doc(rng, big=False):
                 pre, post = rng.choice(pops), rng.choice(pops)
                 inst = pop_is_inst(pre) or pop_is_inst(post)
                 syn = rng.choice(["gs1", "gs2"] if cont else ["gj", "gj2"])
-                prec = rng.choice(["silent1", "gs1"]) if cont else ""
+                prec = rng.choice([x for x in ("silent1", "gs1") if x in have] or ["silent1"]) if cont else ""
                 if inst:
                     counts = rng.choice([(0, 2, 0), (0, 0, 2), (0, 2, 2), (0, 1, 3), (1, 1, 1), (0, 3, 0), (2, 0, 1)])
                 else:
@@ -780,7 +780,9 @@ def canon_doc(d, round32):
                                "inputs": [ci(i) for i in l["inputs"]], "inputWs": [ci(i) for i in l["inputWs"]]}
                               for l in ns["ilists"]), key=lambda l: l["id"]),
         })
-    return {"id": d["id"], "notes": d["notes"], "nets": nets, "top": sorted(d["top"])}
+    top = [[t[0], t[1], "<generated>"] if (t[0] == "silentSynapse" and t[1].startswith("silentSyn_")) else list(t)
+           for t in d["top"]]
+    return {"id": d["id"], "notes": d["notes"], "nets": nets, "top": sorted(top)}
 
 
 # ------------------------------------------------------------------------------------------------ semantic projection (oracle side)
